@@ -164,7 +164,7 @@ where
                         break;
                     }
                     f(i, &mut local);
-                    if local.violations.len() >= 400 {
+                    if local.violations.len() >= 24 {
                         stop.store(1, Ordering::Relaxed);
                     }
                 }
